@@ -16,7 +16,8 @@ REQUIRED_THEOREMS = ['preprocess_length_of', 'recodePairs_single', 'preprocess_l
                      'preprocess_length_current_partial', 'sweep_spans', 'sweep_spans_ip', 'sweep_spans_number',
                      'percent_posmap_monotone', 'percent_restore_span', 'mergeAllTokens_text', 'model_end',
                      'mergeModPrefix_span', 'mergeModPrefix_leading_blank', 'modifier_push_pop',
-                     'modifier_push_pop_suffix', 'modifier_push_pop_index_counterexample', 'phoneRespan_span']
+                     'modifier_push_pop_suffix', 'modifier_push_pop_index_counterexample', 'phoneRespan_span',
+                     'mergedExtract_spans', 'parser_push_pop', 'parser_pop_without_reset_restores_twice', 'parser_push_pop_equal_around_counterexample', 'parser_push_pop_index_counterexample']
 RULE = ('preprocess: every code point (blocks of 200 separated by blanks, both case modes) + seeded strings over a pool '
         'with full-width forms, U+0130, sigma, unit tokens; pipeline and unit level as C12 with oracle spanOK; '
         'non-trivial = distinct query with at least one entity / distinct recorded call with at least one result')
